@@ -291,14 +291,11 @@ impl Check for C24 {
                 continue;
             }
             bound.push(x);
-            // a value, or (one in four) another variable of the call: pure variable-to-variable
+            // a value, or (two in five) another variable of the call: pure variable-to-variable
             // aliasing, also in chains through a third variable, leaves nothing ground
-            let rhs = if vars.len() >= 2 && rng.chance(1, 4) {
-                let y = *rng.pick(&vars);
-                if y == x {
-                    continue;
-                }
-                T::Var(y)
+            let rhs = if vars.len() >= 2 && rng.chance(2, 5) {
+                let others: Vec<V> = vars.iter().copied().filter(|y| *y != x).collect();
+                T::Var(*rng.pick(&others))
             } else if rng.chance(2, 3) {
                 atom(&mut rng)
             } else {
